@@ -291,6 +291,7 @@ func prop(c Case) (o pbt.Outcome) {
 			// C01 states; it is counted, not judged here.
 			o.Inconclusive = fmt.Sprintf("session %d could not open while session 0 was being closed by its application: %s", i, s.OpenErr)
 			o.Label("siblingOpenFailedDuringAbandon")
+			o.Obs = res
 			return
 		}
 		if s.OpenErr != "" {
